@@ -493,7 +493,7 @@ def call_phase(plans, depth):
 
 CLASSES = ['main', 'shared', 'local', 'static', 'param']
 # focus shapes of the sentinel suite (arrays of rank 2-3 keep <= 3 indices per dimension)
-FOCUS = ['int', 'lng', 'sng', 'dbl', 'str', 'ra', 'rb', 'rd', 'a1', 'a2', 'a3', 'ar', 'ar2', 'dy1', 'dy2', 'dyr']
+FOCUS = ['int', 'lng', 'sng', 'dbl', 'str', 'ra', 'rb', 'rd', 'a1', 'a2', 'a3', 'a3f', 'ar', 'ar2', 'dy1', 'dy2', 'dyr']
 NEIGH = ['int', 'str', 'rb', 'a1', 'ar', 'dbl']
 SMALL = [(lb, ub) for lb, ub in S.PAIRS if ub - lb <= 2]
 
@@ -511,6 +511,9 @@ def focus_type(code, salt):
     if code == 'a3':
         return ('a', [SMALL[(salt * 3) % 15], SMALL[(salt * 5 + 4) % 15], SMALL[(salt * 11 + 7) % 15]],
                 ('b', 1 + (salt + 4) % 5))
+    if code == 'a3f':
+        # a full rank-3 shape (every dimension has 2 or 3 elements, non-zero lower bounds)
+        return ('a', [(0, 1), (1, 2), (-1, 1)], ('b', 1 + (salt + 1) % 5))
     if code == 'ar':
         return ('a', [P[(salt * 2 + 6) % 21]], ('r', ['rb', 'rc', 'rd'][salt % 3]))
     if code == 'ar2':
